@@ -94,8 +94,13 @@ PROPS = {
    "cbor_output_valid: for every well-formed stream the CBOR encoder's bytes are `wire` of an `ok` item with the stream's "
    "value and `decode` reads it back completely (spec_roundtrip: decode o wire = id on the whole grammar). "
    "Correspondence: op `enc` incl. all 29 extended events in 8 contexts, boundaries, every byte as string/key, JSON "
-   "options; oracle: reference decoders on the implementation's bytes.",
-   "Kernel-checked for CBOR against an independent grammar+decoder; UBJSON/JSON by mirror + correspondence + oracle."),
+   "options; oracle: reference decoders on the implementation's bytes."
+   " PropsUbj.C07: ubj_output_valid / ubj_output_valid_ext: for every contract-conforming tree (also with extended events) the "
+   "UBJSON encoder's bytes are the wire form of a well-formed UBJSON item (grammar SF/Proofs/UbjWire.lean: plain, counted, "
+   "typed containers), the reference decoder reads them back as exactly one value = the tree's value up to the oracle's "
+   "approxUbj (proved equal to it: approx_is_oracle), exactly equal when no number exceeds MaxInt64; ubj_spec_roundtrip_stream.",
+   "Kernel-checked for CBOR and UBJSON against independent grammars + reference decoders; JSON by mirror + correspondence + oracle.",
+   partial="JSON encoder: no theorem yet"),
  "C08": P("DESIGN.md 7 C08",
    "Lean 4 proof (corollary of parser refinement, contract theorem and encoder refinement) + differential correspondence",
    "cbor_to_cbor: parser events of any supported item in any spelling fed to the encoder give a valid document with the "
@@ -113,8 +118,11 @@ PROPS = {
    "cbor_ext_same: step s x = execEvs s x.expand for every typed array (except byte slices), typed map and by-reference "
    "string at any position; cbor_bytes_same_value for byte slices. Correspondence: op `ext` (extended event vs its "
    "expansion on two fresh encoders inside arbitrary contexts); oracle: same result class, same depth, both decode to "
-   "the stream's value.",
-   "Kernel-checked for the CBOR encoder; UBJSON/JSON by mirror + correspondence + oracle."),
+   "the stream's value."
+   " PropsUbj.C10: ubj_ext_same_value: every extended value event and its expansion are written as different bytes "
+   "(optimized vs plain container) that the reference decoder reads as the SAME value; ubj_keyRef_same / ubj_strRef_same.",
+   "Kernel-checked for the CBOR and UBJSON encoders; JSON and the unfolder by mirror + correspondence + oracle.",
+   partial="JSON encoder, unfolder as consumer: no theorem yet"),
  "C11": P("DESIGN.md 7 C11",
    "Lean 4 proof (scalar core of the round trip: every integer width, float bits, strings) + differential correspondence of the composed mirrors fold -> codec -> unfold + independent deep-equality oracle",
    "int_roundtrip / int_widening / wrapTo_of_inRange / float_bits_roundtrip / string_roundtrip / nil_resets: the unfolder's "
@@ -204,21 +212,29 @@ PROPS = {
    "events without a visitor error, or returns the visitor's error with event k the last one delivered (case analysis "
    "over every parser state: SF/Proofs/CborFault.lean, CborFailAt.lean). Correspondence: ops `enc` (fault index "
    "exhaustive for small streams) and `parse` (visitor failing at event k, k exhaustive); oracle: an error is reported "
-   "/ the injected error is returned and no further event delivered.",
-   "Kernel-checked for the CBOR encoder and the CBOR parser; UBJSON/JSON by mirror + correspondence + oracle.",
-   partial="UBJSON/JSON encoders and parsers, gotype fold/unfold: mirror + correspondence, no theorem yet"),
+   "/ the injected error is returned and no further event delivered."
+   " PropsUbj.C16: ubj_encoder_reports_write_errors / ubj_encoder_failing_event: the same for the UBJSON encoder over every "
+   "stream of basic and extended events, every start state, every fault index (at most one Write ever fails; the failing "
+   "event is the one that returns the error).",
+   "Kernel-checked for the CBOR encoder, the CBOR parser and the UBJSON encoder; the rest by mirror + correspondence + oracle.",
+   partial="JSON encoder, UBJSON/JSON parsers, gotype fold/unfold: mirror + correspondence, no theorem yet"),
  "C17": P("DESIGN.md 7 C17",
    "Lean 4 proof (documents restore every stack; reuse = fresh by induction on histories) + differential correspondence with depth hooks",
    "cbor_encoder_reuse / cbor_parser_reuse / cbor_parser_idle. Correspondence: ops `reuse-enc` / `reuse-parse` (histories "
-   "of 1..8 documents on one instance, probe compared with a fresh instance, depths at every boundary).",
-   "Kernel-checked for CBOR encoder and parser; other components by mirror + correspondence + oracle."),
+   "of 1..8 documents on one instance, probe compared with a fresh instance, depths at every boundary)."
+   " PropsUbj.C17: ubj_encoder_doc_stack / ubj_encoder_reuse / ubj_encoder_reuse_ext: every document restores the UBJSON "
+   "encoder's length stack; after any history of documents (also with extended events) any probe stream yields the bytes, "
+   "result and stack of a new encoder. Unfolder: Props/C14 reset_then_setTarget_is_fresh; fold iterator: op fold-seq.",
+   "Kernel-checked for the CBOR encoder and parser and the UBJSON encoder; other components by mirror + correspondence + oracle.",
+   partial="JSON encoder/parser, UBJSON parser, pull decoders, fold iterator, unfolder after complete documents: no theorem yet"),
  "C18": P("DESIGN.md 7 C18",
-   "Lean 4 proof (byte-slice decoder: one value per Next then EOF) + differential correspondence over read scripts",
-   "bytes_decoder_stream / next_one / eof_not_clean. Correspondence: op `dec` (k documents, buffer sizes "
+   "Lean 4 proof (CBOR decoder, byte-slice and reader-driven: one value per Next then clean EOF for every split into reads; truncation => unexpectedEOF; read-size independence on arbitrary bytes; termination) + differential correspondence over read scripts",
+   "reader_decoder_stream / reader_decoder_truncated(_one) / reader_chunking_independent / reader_eq_bytes_decoder / "
+   "reader_never_outOfFuel / enough_nextFuel; bytes_decoder_stream / next_one / eof_not_clean. Correspondence: op `dec` (k documents, buffer sizes "
    "{bytes,1,2,3,7,16,64,4096}, read sizes varying per call, (0,nil) reads, data with io.EOF, truncated streams); oracle: "
    "ok x k then eof with exactly one value per Next; truncated => error.",
-   "Kernel-checked for the CBOR byte-slice decoder; reader decoders and other formats by mirror + correspondence.",
-   partial="reader-driven decoders with arbitrary read sizes not yet proved (needs C02)"),
+   "Kernel-checked in full for the CBOR decoder (byte-slice and reader-driven); UBJSON and JSON decoders by mirror + correspondence + oracle.",
+   partial="UBJSON and JSON decoders: no theorem yet"),
  "C19": dict(P("DESIGN.md 7 C19",
    "Lean 4 proof (non-interference of state-owning instances under every interleaving) tied to regenerated SSA facts about package-level state",
    "interleaving_independent: for any number of instances whose steps read only their own state and an immutable "
